@@ -287,7 +287,7 @@ fn api_conditions(conds: &[Term]) -> Option<api::Conditions> {
                     if p.len() != 2 {
                         return None;
                     }
-                    v.push(api::Family { afi: p[0].as_u64()? as i32, safi: p[1].as_u64()? as i32 });
+                    v.push(api::Family { afi: nat_of(&p[0])? as i32, safi: nat_of(&p[1])? as i32 });
                 }
                 c.afi_safi_in = v
             }
